@@ -442,7 +442,7 @@ func c07Check(sc c07Scenario, golden map[int]string, solo []string, env *c07Env,
 }
 
 func TestVerifC07Stack(t *testing.T) {
-	r := vrt.Start("C07S")
+	r := vrt.Start("C07")
 	debug.SetGCPercent(-1)
 	// The whole exploration runs under a virtual clock that never advances
 	// (some task is always runnable), so that cache ages are always zero.
